@@ -1124,6 +1124,18 @@ class Facts:
             elif p in self.fns and p in inl:
                 self.absorbed[p] = self.fns.pop(p)
         self.fn_items_as_values = fnrefs
+        # closures of an absorbed helper live on as closures of nobody: what they call through a captured closure (the callback the
+        # helper was given) is known now that the helper sits in its caller
+        for p, f in list(self.fns.items()):
+            if f.kind == "Closure" and re.sub(r"(::\{closure#[^}]*\})+$", "", p) in self.absorbed:
+                # (only when the helper was inlined at one place: a closure shared by several callers has several callbacks)
+                built = sum(1 for h in self.fns.values() for blk in h.blocks for st in blk["stmts"]
+                            if st["k"] == "assign" and st["rv"]["k"] == "agg" and st["rv"].get("closure") == p)
+                if built != 1:
+                    continue
+                g = inline_closure_calls(self, f)
+                if g is not f:
+                    self.fns[p] = g
         # state grouped into a new private struct whose methods have just been inlined: back to one local per field
         with open(kp) as fh:
             known_adts = (json.load(fh).get("__adts__") or {})
